@@ -92,6 +92,7 @@ class World(object):
         self.ratios = {}
         self.rhs_completed_at_reset = 0
         self.jacreq_at_reset = 0
+        self.jacreq_at_build = 0
         self.harness_error = None
         self.rhs_completed = 0
         self.jac_completed = 0
@@ -355,7 +356,20 @@ class World(object):
         if s.get("atol") is not None:
             kw["atol"] = s["atol"]
         self.events = [SimEvent(self, i, d) for i, d in enumerate(self.scn.get("events", []))]
-        self.system = de.OdeSystem(self.rhs, y0, **kw)
+        rhs_obj = self.rhs
+        pre = s.get("prewrapped")
+        if pre:
+            # the user wraps the function in a DiffRHS themselves (what rhs_prettifier does) and uses the wrapper before the system
+            # exists: those evaluations are not "made through the system since construction"
+            rhs_obj = de.DiffRHS(self.rhs)
+            for _ in range(int(pre.get("rhs_calls", 0))):
+                rhs_obj(p.dtype.type(s["t0"]), y0, **consts)
+            for _ in range(int(pre.get("jac_calls", 0))):
+                rhs_obj.jac(p.dtype.type(s["t0"]), y0, **consts)
+            self.probe("rhs_wrapper_used_before_construction")
+        self.rhs_completed_at_reset = self.rhs_completed
+        self.jacreq_at_reset = self.jacreq_at_build = self.jacreq_returned
+        self.system = de.OdeSystem(rhs_obj, y0, **kw)
         self._wrap_integrate(self.system)
         if s.get("method") is not None:
             self.system.method = method_class(s["method"])
